@@ -45,7 +45,7 @@ def solve(formulas, timeout_ms=20000, want_model=True, fallback=True, tactics=Tr
                 for f in formulas:
                     g.add(f)
                 tac = z3.TryFor(z3.Then('simplify', 'solve-eqs', 'smt') if tname == 'default' else
-                                z3.Then('simplify', 'purify-arith', 'qfnra-nlsat'), int(timeout_ms))
+                                z3.Then('simplify', 'purify-arith', 'qfnra-nlsat'), int(min(timeout_ms, 10000)))
                 s2 = tac.solver()
                 for f in formulas:
                     s2.add(f)
@@ -63,14 +63,15 @@ def solve(formulas, timeout_ms=20000, want_model=True, fallback=True, tactics=Tr
                 continue
     if fallback:
         txt = to_smt2(formulas)
-        for name, cmd in (('cvc5-1.0', [CVC5, '--tlimit=%d' % timeout_ms, '--nl-ext-tplanes']), ('z3-4.8', [Z3_OLD, '-T:%d' % max(1, timeout_ms // 1000)])):
+        fb_ms = min(timeout_ms, 20000)
+        for name, cmd in (('cvc5-1.0', [CVC5, '--tlimit=%d' % fb_ms, '--nl-ext-tplanes']), ('z3-4.8', [Z3_OLD, '-T:%d' % max(1, fb_ms // 2000)])):
             if not os.path.exists(cmd[0]):
                 continue
             with tempfile.NamedTemporaryFile('w', suffix='.smt2', delete=False, dir=os.environ.get('PVC_TMP', None)) as f:
                 f.write(txt)
                 path = f.name
             try:
-                out = subprocess.run(cmd + [path], capture_output=True, text=True, timeout=timeout_ms / 1000 + 10).stdout.strip().splitlines()
+                out = subprocess.run(cmd + [path], capture_output=True, text=True, timeout=fb_ms / 1000 + 10).stdout.strip().splitlines()
                 first = out[0].strip() if out else 'unknown'
             except subprocess.TimeoutExpired:
                 first = 'unknown'
